@@ -747,7 +747,10 @@ def chk_csv(edges_md, bins, dup, sep, header, via):
     exp = csv_rows_ref(edges_md, bins, dup)
     if len(lines) != len(exp):
         ncell = sum(1 for r in exp if r[0] == "cell")
-        fid = "/cell-row-count" if (len(lines) - (len(exp) - ncell) != ncell and not dup) else "/row-count"
+        if dup:
+            fid = "/duplicate-rows-missing" if len(lines) == ncell else "/row-count-with-duplicates"
+        else:
+            fid = "/unrequested-duplicate-rows" if len(lines) == len(csv_rows_ref(edges_md, bins, True)) else "/cell-row-count"
         v.append((base + fid, "%s: %d rows %r, expected %d (%d cells%s)" % (
             ctx, len(lines), lines, len(exp), ncell, " + duplicated last edge" if dup else "")))
         return v
@@ -821,11 +824,13 @@ def chk_scale_to(items, target, via, allow):
             cells = ref_cells(it[1], it[2])
             I, mag = ref_integral(cells)
             if it[4] == "cached":
-                h.scale()
+                exc_name(lambda: h.scale())
             objs.append(h)
             info.append((I if I != 0 else None, cells))
         else:
-            g = graph(copy.deepcopy(it[2]), field_names=tuple(it[1]), scale=it[3])
+            g, ex = exc_name(lambda: graph(copy.deepcopy(it[2]), field_names=tuple(it[1]), scale=it[3]))
+            if ex:
+                return [("graph/valid-naming-rejected", "graph(%r, field_names=%r, scale=%r) raised %s" % (it[2], tuple(it[1]), it[3], ex))]
             objs.append(g)
             info.append((Fraction(it[3]) if it[3] else None, None))
     if target[0] == "num":
@@ -1056,7 +1061,7 @@ def graph_coords(ncols, npts, flavour):
 def body(R):
     rng = R.rng
     T = R.thorough
-    maxb = 3
+    maxb = 4 if T else 3
 
     # ---- histogram.scale / integral
     svals = [(1, 2), (2, -3), (-3, 0.5), (0.5, 10), (10, 7.25), (7.25, 1)] if T else [(2, -3), (0.5, 7.25), (-3, 1)]
@@ -1155,7 +1160,7 @@ def body(R):
         run_case(R, "add_unequal", [em, other, rng.choice([1, 2, -0.5])] if rng.random() < 0.5 else [other, em, rng.choice([1, 3])])
 
     # ---- get_nevents / set_nevents
-    nvals = [1, 10, 2.5, -4, 0.001, 3] if T else [10, 2.5, -4]
+    nvals = [1, 10, 2.5, -4, 0.001, 3] if T else [10, -2.5]
     R.scope("get_nevents / set_nevents (exhaustive shapes)",
             "all shapes with 1..%d bins per axis in 1..3 dimensions, 5 tagged content patterns, n_out_of_range in "
             "{0, 3, 1.5, -(sum of cells) i.e. zero events with out-of-range included}, n in %r, include_out_of_range "
@@ -1189,12 +1194,12 @@ def body(R):
     R.scope("graph.scale (every valid naming)",
             "all %d valid namings: %d coordinate tuples of 1..3 names (some a prefix of another, 'error' as a name), every "
             "ordered selection of 0..3 distinct error fields error_c / error_c_low / error_c_high accepted by the reference "
-            "reading; %r points, int and float tagged columns, (scale, target, second target) in %r; field names as tuple, "
+            "reading; %r points, int and float tagged columns (quick tier: alternating), (scale, target, second target) in %r; field names as tuple, "
             "and as comma / space separated string; plus scale None / 0 / 0.0 for every naming" % (
                 len(namings), len(COORD_TUPLES), npts, spairs), True)
     for k, names in enumerate(namings):
         for npt in npts:
-            for fl in ("int", "float"):
+            for fl in (("int", "float") if T else (("int", "float")[k % 2],)):
                 coords = graph_coords(len(names), npt, fl)
                 for sc, s, s2 in spairs:
                     run_case(R, "graph_scale", [names, coords, sc, s, s2, "tuple"])
